@@ -7,6 +7,7 @@ import (
 	"go/token"
 	"go/types"
 	"math/big"
+	"strings"
 
 	"golang.org/x/tools/go/ssa"
 )
@@ -189,6 +190,7 @@ func (fc *FnCtx) execInstr(fr *Frame, st *State, reach string, ins ssa.Instructi
 		fc.assumption("A-GO: `go` statements have no effect on the spawning function's state")
 	case *ssa.Send:
 		fc.assumption("A-CHAN: channel operations are nondeterministic (no FIFO, no blocking semantics)")
+		fc.atSend(fr, st, reach, fc.value(fr, st, t.Chan), fc.value(fr, st, t.X))
 	case *ssa.Select:
 		fr.vals[t] = fc.selectOp(fr, st, t)
 	default:
@@ -824,9 +826,35 @@ func (fc *FnCtx) selectOp(fr *Frame, st *State, t *ssa.Select) Val {
 		lo = "(- 1)"
 	}
 	fc.sc.assume(tAnd(sx("<=", lo, idx), sx("<", idx, num(int64(len(t.States))))))
+	for _, sst := range t.States {
+		if sst.Send != nil {
+			fc.atSend(fr, st, fc.curReach, fc.value(fr, st, sst.Chan), fc.value(fr, st, sst.Send))
+		}
+	}
 	v := Val{K: KTuple, T: tu, Fs: []Val{intVal(tu.At(0).Type(), idx), boolVal(fc.sc.fresh("selok", "Bool"))}}
 	for i := 2; i < tu.Len(); i++ {
 		v.Fs = append(v.Fs, fc.freshVal(st, tu.At(i).Type(), "selrecv"))
 	}
 	return v
+}
+
+// atSend checks the function's `atsend` clauses for a send on a channel that
+// was loaded from a struct field.
+func (fc *FnCtx) atSend(fr *Frame, st *State, reach string, ch Val, sent Val) {
+	if fr.parent != nil || fc.con == nil || ch.Orig == "" {
+		return
+	}
+	for _, as := range fc.con.AtSend {
+		if !strings.HasSuffix(ch.Orig, "."+as.Field) {
+			continue
+		}
+		vars := map[string]Val{}
+		for k, v := range fc.paramVars(fr) {
+			vars[k] = v
+		}
+		vars["sent"] = sent
+		env := fc.specEnv(st, fc.oldSt, vars, fr.fn.Pkg.Pkg, fr, as.Clause.Text)
+		t := env.evalBool(as.Clause.Expr)
+		fc.oblige(fr, "atsend", as.Field+": "+clauseName(as.Clause), reach, t, env.quant, nil)
+	}
 }
